@@ -119,6 +119,56 @@ pub const PLACEHOLDERS: [&str; 34] = [
 ];
 
 static DICTIONARY: std::sync::OnceLock<Vec<String>> = std::sync::OnceLock::new();
+static NEW_WORDS: std::sync::OnceLock<Vec<String>> = std::sync::OnceLock::new();
+
+/// Option-like literals of the pinned tree's source (`-name`, `-print`, ... also the ones it
+/// refuses or panics on, which belong to other properties). A literal of that shape that is NOT in
+/// this list is syntax a change has added: the generators try it out.
+const PINNED_OPTION_WORDS: [&str; 59] = [
+    "-amin", "-and", "-anerr", "-anewer", "-atime", "-cmin", "-cnewer", "-ctime", "-depth", "-empty", "-executable", "-false", "-fls", "-fprint", "-fprint0",
+    "-fprintf", "-fstype", "-gid", "-group", "-ilname", "-iname", "-inum", "-ipath", "-iregex", "-links", "-ls", "-maxdepth", "-mindepth", "-mirror-count", "-mmin",
+    "-mnewer", "-mtime", "-name", "-nogroup", "-notanoption", "-nouser", "-or", "-path", "-perm", "-pool", "-print", "-print-file-fid", "-print0", "-printf", "-prune",
+    "-quit", "-readable", "-regex", "-samefile", "-size", "-stripe-count", "-threads", "-true", "-type", "-uid", "-user", "-writable", "-xattr", "-xattr-match",
+];
+
+/// Words that look like options of a find expression, found in the library's source and unknown
+/// to the pinned tree (empty on the pinned tree).
+pub fn new_option_words() -> &'static [String] {
+    NEW_WORDS.get().map(|d| d.as_slice()).unwrap_or(&[])
+}
+
+/// Does the text use syntax that only a changed tree knows?
+pub fn uses_new_words(text: &str) -> bool {
+    let words = new_option_words();
+    !words.is_empty() && text.split_whitespace().any(|t| words.iter().any(|w| w == t))
+}
+
+/// An expression from the configured vocabulary; when the library's source has option-like words
+/// the pinned tree does not know, one expression in three tries one of them: in front (where a
+/// global option goes) or as a leaf, bare or with a number, a word or a file name after it.
+pub fn expression(rng: &mut Rng, cfg: &GenCfg) -> String {
+    let base = expression_inner(rng, cfg);
+    let words = new_option_words();
+    if words.is_empty() || !rng.chance(1, 3) {
+        return base;
+    }
+    let w = &words[rng.usize_below(words.len())];
+    let leaf = match rng.below(7) {
+        0 | 1 | 2 => w.clone(),
+        3 => format!("{w} {}", rng.range(0, 9)),
+        4 => format!("{w} +{}", rng.range(0, 9)),
+        5 => format!("{w} {}", pattern(rng.usize_below(cfg.pattern_pool.max(1)))),
+        _ => format!("{w} {}", out_file(rng.usize_below(cfg.file_pool.max(1)) + cfg.file_base)),
+    };
+    if base.trim().is_empty() {
+        return leaf;
+    }
+    if rng.chance(2, 3) {
+        format!("{leaf} {base}")
+    } else {
+        format!("{base} {leaf}")
+    }
+}
 
 /// Load the dictionary harvested from the library's own string literals (run.sh writes it next to
 /// the target directory's binaries at build time). Called once by `main` on the coordinator
@@ -131,7 +181,16 @@ pub fn load_dictionary() -> usize {
             .and_then(|t| serde_json::from_str::<Vec<String>>(&t).ok())
             .unwrap_or_default()
     });
+    NEW_WORDS.get_or_init(|| {
+        let path = std::env::var_os("VERIF_ROOT").map(std::path::PathBuf::from).unwrap_or_else(|| std::path::PathBuf::from("/verif")).join("target/dict_options.json");
+        let all: Vec<String> = std::fs::read_to_string(path).ok().and_then(|t| serde_json::from_str::<Vec<String>>(&t).ok()).unwrap_or_default();
+        all.into_iter().filter(|w| !PINNED_OPTION_WORDS.contains(&w.as_str())).collect()
+    });
     words.len()
+}
+
+pub fn dictionary() -> &'static [String] {
+    DICTIONARY.get().map(|d| d.as_slice()).unwrap_or(&[])
 }
 
 /// A string that a templating step might mistake for its own marker: one of the fixed look-alikes
@@ -427,7 +486,7 @@ fn render(node: &Node, rng: &mut Rng, out: &mut String, top: bool) {
 }
 
 /// Generate one expression text.
-pub fn expression(rng: &mut Rng, cfg: &GenCfg) -> String {
+fn expression_inner(rng: &mut Rng, cfg: &GenCfg) -> String {
     let mut leaves: Vec<Node> = vec![];
     for _ in 0..cfg.matchers {
         let t = if rng.below(4) < cfg.likely_true { likely_true_test(rng) } else { matcher_test(rng, cfg) };
